@@ -3,6 +3,8 @@
   (lean/Atomman/C05.lean).  `K` is any linearly ordered field (ℚ, ℝ, …).
 -/
 import Proofs.C05_Lemmas
+import Mathlib.Analysis.Real.Sqrt
+import Mathlib.Data.Rat.Floor
 
 namespace Atomman.C05
 open Atomman
@@ -169,5 +171,319 @@ theorem wrap_idem (fl : K → Int) (hfl : IsFloor fl) (pad : K) (hpad : 0 < pad)
     have hf' : f ∈ (wrap fl pad b pbc pos).pos.map (atomFlags fl (wrap fl pad b pbc pos).box pbc) := hf
     obtain ⟨p', hp', rfl⟩ := List.mem_map.mp hf'
     exact hflags p' hp'
+
+/-! ## normalize -/
+
+/-- **flip_same_points**: reversing the third vector of a cell and moving the origin to its tip
+    describes the same points (`s_c ↦ 1 - s_c`), the same parallelepiped, the same lattice, with the
+    opposite handedness; `flip` therefore always yields a right-handed cell. -/
+theorem flip_same_points (b : Box K) :
+    (∀ s : V3 K, (flipC b).relToCart ⟨s.x, s.y, 1 - s.z⟩ = b.relToCart s) ∧
+    (∀ s : V3 K, insideRel s ↔ insideRel (⟨s.x, s.y, 1 - s.z⟩ : V3 K)) ∧
+    (∀ f : V3 Int, latticeVec (flipC b).vects f = latticeVec b.vects ⟨f.x, f.y, -f.z⟩) ∧
+    M3.det (flipC b).vects = - M3.det b.vects ∧
+    (M3.det b.vects ≠ 0 → 0 < M3.det (flip b).vects) ∧
+    (M3.det b.vects ≠ 0 → ∀ p : V3 K, (flipC b).cartToRel p
+        = ⟨(b.cartToRel p).x, (b.cartToRel p).y, 1 - (b.cartToRel p).z⟩) := by
+  refine ⟨relToCart_flipC b, ?_, latticeVec_flipC b, det_flipC b, flip_det_pos b, ?_⟩
+  · intro s
+    simp only [insideRel]
+    constructor <;> rintro ⟨h0, h1, h2, h3, h4, h5⟩ <;> refine ⟨h0, h1, h2, h3, ?_, ?_⟩ <;> linarith
+  · intro hdet p
+    have hd : M3.det (flipC b).vects ≠ 0 := by rw [det_flipC]; exact neg_ne_zero.mpr hdet
+    apply relToCart_inj (flipC b) hd
+    rw [relToCart_cartToRel _ hd, relToCart_flipC, relToCart_cartToRel _ hdet]
+
+/-- **normalize_lammps_normal**: a fully periodic system is returned in a right-handed LAMMPS-compatible
+    cell (`a ∥ x`, `b` in the xy plane, positive diagonal) at origin 0 — and `normalize` is defined. -/
+theorem normalize_lammps_normal (fl : K → Int) (pad : K) (sqrt : K → K) (b : Box K)
+    (hs : SqrtOK sqrt (flip b).vects) (pos : List (V3 K)) :
+    ∃ r, normalize? fl pad sqrt b ⟨true, true, true⟩ pos = some r ∧
+      Box.isLammpsNorm r.box = true ∧ 0 < M3.det r.box.vects ∧ r.box.origin = ⟨0, 0, 0⟩ ∧
+      r.pos.length = pos.length := by
+  obtain ⟨b2, _, ho, hn, _, hd, hr⟩ := normalize_full_form fl pad sqrt b hs pos
+  exact ⟨_, hr, hn, hd, ho, by simp⟩
+
+/-- **normalize_gram**: the new cell has the Gram matrix of the (reversed, if left-handed) old cell:
+    the same squared lengths `a·a, b·b, c·c`, the same dot products (hence the same angles), and the
+    same volume: `det new = |det old|`. -/
+theorem normalize_gram (fl : K → Int) (pad : K) (sqrt : K → K) (b : Box K) (hdet : M3.det b.vects ≠ 0)
+    (hs : SqrtOK sqrt (flip b).vects) (pos : List (V3 K)) (r : Normalized K)
+    (hr : normalize? fl pad sqrt b ⟨true, true, true⟩ pos = some r) :
+    gram r.box.vects = gram (flip b).vects ∧
+    (V3.normSq r.box.vects.r0 = V3.normSq b.vects.r0 ∧ V3.normSq r.box.vects.r1 = V3.normSq b.vects.r1 ∧
+      V3.normSq r.box.vects.r2 = V3.normSq b.vects.r2 ∧
+      V3.dot r.box.vects.r0 r.box.vects.r1 = V3.dot b.vects.r0 b.vects.r1) ∧
+    (0 < triple b.vects → V3.dot r.box.vects.r0 r.box.vects.r2 = V3.dot b.vects.r0 b.vects.r2 ∧
+      V3.dot r.box.vects.r1 r.box.vects.r2 = V3.dot b.vects.r1 b.vects.r2) ∧
+    (triple b.vects < 0 → V3.dot r.box.vects.r0 r.box.vects.r2 = - V3.dot b.vects.r0 b.vects.r2 ∧
+      V3.dot r.box.vects.r1 r.box.vects.r2 = - V3.dot b.vects.r1 b.vects.r2) ∧
+    M3.det r.box.vects = |M3.det b.vects| := by
+  obtain ⟨b2, _, ho, hn, hg, hd, hr'⟩ := normalize_full_form fl pad sqrt b hs pos
+  rw [hr'] at hr
+  obtain rfl := Option.some.inj hr
+  have hdet1 := flip_det_pos b hdet
+  -- determinant: squares agree and both are positive
+  have hsq : M3.det b2.vects * M3.det b2.vects = M3.det (flip b).vects * M3.det (flip b).vects := by
+    rw [← det_gram, ← det_gram, hg]
+  have hdd : M3.det b2.vects = M3.det (flip b).vects := by
+    have h0 : (M3.det b2.vects - M3.det (flip b).vects) * (M3.det b2.vects + M3.det (flip b).vects) = 0 := by
+      linear_combination hsq
+    rcases mul_eq_zero.mp h0 with h | h
+    · linarith
+    · linarith
+  have hge := hg
+  rw [gram_entries, gram_entries] at hge
+  simp only [M3.mk.injEq, V3.mk.injEq] at hge
+  obtain ⟨⟨g00, g01, g02⟩, ⟨_, g11, g12⟩, ⟨_, _, g22⟩⟩ := hge
+  by_cases hneg : triple b.vects < 0
+  · have hf : flip b = flipC b := by simp only [flip, hneg, if_true]
+    have hdn : M3.det b.vects < 0 := by rw [← triple_eq_det]; exact hneg
+    refine ⟨hg, ?_, fun hp => absurd hneg (not_lt.mpr hp.le), fun _ => ?_, ?_⟩
+    · rw [hf] at g00 g01 g11 g22
+      simp only [flipC, V3.normSq, V3.dot, V3.neg_def] at g00 g01 g11 g22 ⊢
+      exact ⟨g00, g11, by linear_combination g22, g01⟩
+    · rw [hf] at g02 g12
+      simp only [flipC, V3.dot, V3.neg_def] at g02 g12 ⊢
+      exact ⟨by linear_combination g02, by linear_combination g12⟩
+    · rw [hdd, hf, det_flipC, abs_of_neg hdn]
+  · have hf : flip b = b := by simp only [flip, hneg, if_false]
+    have hdn : 0 ≤ M3.det b.vects := by rw [← triple_eq_det]; exact not_lt.mp hneg
+    rw [hf] at g00 g01 g02 g11 g12 g22
+    refine ⟨hg, ⟨g00, g11, g22, g01⟩, fun _ => ⟨g02, g12⟩, fun h => absurd h hneg, ?_⟩
+    rw [hdd, hf, abs_of_nonneg hdn]
+
+/-- **normalize_proper_rotation**: the returned transformation `T` is a proper rotation
+    (`T Tᵀ = 1 = Tᵀ T`, `det T = 1`) and takes every (reversed, if left-handed) old cell vector to the
+    new one: `T · vᵢ = vᵢ'`  (row form: `V_old · Tᵀ = V_new`). -/
+theorem normalize_proper_rotation (fl : K → Int) (pad : K) (sqrt : K → K) (b : Box K)
+    (hdet : M3.det b.vects ≠ 0) (hs : SqrtOK sqrt (flip b).vects) (pos : List (V3 K)) (r : Normalized K)
+    (hr : normalize? fl pad sqrt b ⟨true, true, true⟩ pos = some r) :
+    M3.mul r.transform r.transform.transpose = M3.one ∧
+    M3.mul r.transform.transpose r.transform = M3.one ∧
+    M3.det r.transform = 1 ∧
+    M3.mul (flip b).vects r.transform.transpose = r.box.vects ∧
+    (M3.mulVec r.transform (flip b).vects.r0 = r.box.vects.r0 ∧
+     M3.mulVec r.transform (flip b).vects.r1 = r.box.vects.r1 ∧
+     M3.mulVec r.transform (flip b).vects.r2 = r.box.vects.r2) := by
+  obtain ⟨b2, _, ho, hn, hg, hd, hr'⟩ := normalize_full_form fl pad sqrt b hs pos
+  rw [hr'] at hr
+  obtain rfl := Option.some.inj hr
+  have hdet1 := flip_det_pos b hdet
+  obtain ⟨e1, e2, e3, e4⟩ := gram_eq_rotation (flip b).vects b2.vects (ne_of_gt hdet1) hg
+  simp only [M3.transpose_transpose]
+  have hdR : M3.det (M3.mul (M3.inv (flip b).vects) b2.vects) = 1 := by
+    have hm := congrArg M3.det e1
+    rw [M3.det_mul] at hm
+    -- det V1 * det R = det b2 and det R² = 1, all determinants positive
+    have hRpos : 0 < M3.det (M3.mul (M3.inv (flip b).vects) b2.vects) := by
+      by_contra hcon
+      have hle := not_lt.mp hcon
+      have : M3.det (flip b).vects * M3.det (M3.mul (M3.inv (flip b).vects) b2.vects) ≤ 0 :=
+        mul_nonpos_of_nonneg_of_nonpos hdet1.le hle
+      linarith
+    have h0 : (M3.det (M3.mul (M3.inv (flip b).vects) b2.vects) - 1)
+        * (M3.det (M3.mul (M3.inv (flip b).vects) b2.vects) + 1) = 0 := by linear_combination e4
+    rcases mul_eq_zero.mp h0 with h | h <;> linarith
+  refine ⟨e3, e2, by rw [M3.det_transpose]; exact hdR, e1, ?_⟩
+  -- row form ⇒ column form
+  generalize M3.mul (M3.inv (flip b).vects) b2.vects = R at e1
+  generalize (flip b).vects = V1 at e1
+  obtain ⟨⟨a0, a1, a2⟩, ⟨a3, a4, a5⟩, ⟨a6, a7, a8⟩⟩ := V1
+  obtain ⟨⟨r0, r1, r2⟩, ⟨r3, r4, r5⟩, ⟨r6, r7, r8⟩⟩ := R
+  rw [← e1]
+  simp only [M3.mul, M3.vecMul, M3.mulVec, M3.transpose, V3.dot, V3.mk.injEq]
+  refine ⟨⟨?_, ?_, ?_⟩, ⟨?_, ?_, ?_⟩, ⟨?_, ?_, ?_⟩⟩ <;> ring
+
+/-- **normalize_inside**: every atom of the normalized (fully periodic) system is inside the new cell. -/
+theorem normalize_inside (fl : K → Int) (hfl : IsFloor fl) (pad : K) (hpad : 0 < pad) (sqrt : K → K) (b : Box K)
+    (hs : SqrtOK sqrt (flip b).vects) (pos : List (V3 K)) (r : Normalized K)
+    (hr : normalize? fl pad sqrt b ⟨true, true, true⟩ pos = some r) :
+    ∀ p' ∈ r.pos, insideRel (r.box.cartToRel p') := by
+  obtain ⟨b2, h2, ho, hn, hg, hd, _⟩ := normalize_full_form fl pad sqrt b hs pos
+  rw [normalize_eq fl pad sqrt b _ pos b2 h2] at hr
+  obtain rfl := Option.some.inj hr
+  exact wrap_inside fl hfl pad hpad b2 (ne_of_gt hd) _ _
+
+/-- **dist_depends_on_gram**: `|c·V|² = cᵀ (V Vᵀ) c`; so two cells with the same Gram matrix give the same
+    length to every (real-valued) combination of their vectors. -/
+theorem dist_depends_on_gram (V : M3 K) (c : V3 K) :
+    V3.normSq (M3.vecMul c V) = V3.dot c (M3.mulVec (gram V) c) := by
+  obtain ⟨⟨a0, a1, a2⟩, ⟨a3, a4, a5⟩, ⟨a6, a7, a8⟩⟩ := V
+  obtain ⟨x, y, z⟩ := c
+  simp only [gram, M3.mul, M3.vecMul, M3.mulVec, M3.transpose, V3.normSq, V3.dot]
+  ring
+
+theorem normSq_eq_of_gram_eq (V N : M3 K) (h : gram N = gram V) (c : V3 K) :
+    V3.normSq (M3.vecMul c N) = V3.normSq (M3.vecMul c V) := by
+  rw [dist_depends_on_gram, dist_depends_on_gram, h]
+
+/-- **normalize_rel_mod_one**: in a fully periodic system the relative coordinates of every atom in the
+    new cell are its relative coordinates in the (reversed, if left-handed) old cell minus its integer
+    image flags; atoms, flags and positions correspond one to one. -/
+theorem normalize_rel_mod_one (fl : K → Int) (pad : K) (sqrt : K → K) (b : Box K)
+    (hs : SqrtOK sqrt (flip b).vects) (pos : List (V3 K)) (r : Normalized K)
+    (hr : normalize? fl pad sqrt b ⟨true, true, true⟩ pos = some r) :
+    r.pos = pos.map (normPos fl (flip b) r.box) ∧ r.flags = pos.map (normFlags fl (flip b) r.box) ∧
+    ∀ p : V3 K, r.box.cartToRel (normPos fl (flip b) r.box p)
+      = subFlags ((flip b).cartToRel p) (normFlags fl (flip b) r.box p) := by
+  obtain ⟨b2, _, ho, hn, hg, hd, hr'⟩ := normalize_full_form fl pad sqrt b hs pos
+  rw [hr'] at hr
+  obtain rfl := Option.some.inj hr
+  refine ⟨rfl, rfl, fun p => ?_⟩
+  simp only [normPos, normFlags, atomPos, atomFlags]
+  rw [cartToRel_relToCart b2 (ne_of_gt hd), cartToRel_relToCart b2 (ne_of_gt hd)]
+
+/-- **normalize_image_distances**: for any two atoms `p`, `q` and any image shift `n ∈ ℤ³`, the squared
+    distance between the new positions shifted by `n` new cell vectors equals the squared distance
+    between the old positions shifted by `n - f_q + f_p` old cell vectors.  As `n ↦ n - f_q + f_p` is a
+    bijection of `ℤ³`, the whole spectrum of image distances of every pair — in particular the true
+    nearest-image distance — is unchanged. -/
+theorem normalize_image_distances (fl : K → Int) (pad : K) (sqrt : K → K) (b : Box K)
+    (hdet : M3.det b.vects ≠ 0) (hs : SqrtOK sqrt (flip b).vects) (pos : List (V3 K)) (r : Normalized K)
+    (hr : normalize? fl pad sqrt b ⟨true, true, true⟩ pos = some r) (p q : V3 K) (n : V3 Int) :
+    V3.normSq (normPos fl (flip b) r.box q - normPos fl (flip b) r.box p + latticeVec r.box.vects n)
+      = V3.normSq (q - p + latticeVec (flip b).vects
+          ⟨n.x - (normFlags fl (flip b) r.box q).x + (normFlags fl (flip b) r.box p).x,
+           n.y - (normFlags fl (flip b) r.box q).y + (normFlags fl (flip b) r.box p).y,
+           n.z - (normFlags fl (flip b) r.box q).z + (normFlags fl (flip b) r.box p).z⟩) := by
+  obtain ⟨b2, _, ho, hn, hg, hd, hr'⟩ := normalize_full_form fl pad sqrt b hs pos
+  rw [hr'] at hr
+  obtain rfl := Option.some.inj hr
+  have hd1 := ne_of_gt (flip_det_pos b hdet)
+  -- old positions in relative terms
+  have hold := fun m : V3 Int => sep_rel (flip b) ((flip b).cartToRel p) ((flip b).cartToRel q) m
+  simp only [relToCart_cartToRel (flip b) hd1] at hold
+  rw [hold]
+  -- new positions in relative terms
+  have hp : ∀ x : V3 K, normPos fl (flip b) b2 x
+      = b2.relToCart (subFlags ((flip b).cartToRel x) (normFlags fl (flip b) b2 x)) := by
+    intro x
+    simp only [normPos, normFlags, atomPos, atomFlags]
+    rw [cartToRel_relToCart b2 (ne_of_gt hd)]
+  rw [hp q, hp p, sep_rel, ← normSq_eq_of_gram_eq (flip b).vects b2.vects hg]
+  congr 2
+  simp only [subFlags, V3.mk.injEq, Int.cast_add, Int.cast_sub]
+  refine ⟨?_, ?_, ?_⟩ <;> ring
+
+/-- **normalize_distance_spectrum**: the set of squared image distances of any pair of atoms is the same
+    before and after (both inclusions; the old lattice may equally be taken unreversed, see
+    `flip_same_points`). -/
+theorem normalize_distance_spectrum (fl : K → Int) (pad : K) (sqrt : K → K) (b : Box K)
+    (hdet : M3.det b.vects ≠ 0) (hs : SqrtOK sqrt (flip b).vects) (pos : List (V3 K)) (r : Normalized K)
+    (hr : normalize? fl pad sqrt b ⟨true, true, true⟩ pos = some r) (p q : V3 K) (d : K) :
+    (∃ n : V3 Int, d = V3.normSq (normPos fl (flip b) r.box q - normPos fl (flip b) r.box p
+        + latticeVec r.box.vects n)) ↔
+    (∃ m : V3 Int, d = V3.normSq (q - p + latticeVec (flip b).vects m)) := by
+  constructor
+  · rintro ⟨n, rfl⟩
+    exact ⟨_, normalize_image_distances fl pad sqrt b hdet hs pos r hr p q n⟩
+  · rintro ⟨m, rfl⟩
+    refine ⟨⟨m.x + (normFlags fl (flip b) r.box q).x - (normFlags fl (flip b) r.box p).x,
+             m.y + (normFlags fl (flip b) r.box q).y - (normFlags fl (flip b) r.box p).y,
+             m.z + (normFlags fl (flip b) r.box q).z - (normFlags fl (flip b) r.box p).z⟩, ?_⟩
+    rw [normalize_image_distances fl pad sqrt b hdet hs pos r hr p q]
+    congr 3
+    obtain ⟨mx, my, mz⟩ := m
+    simp only [V3.mk.injEq]
+    refine ⟨?_, ?_, ?_⟩ <;> omega
+
+/-! ## the hypotheses are satisfiable -/
+
+/-- the two inner square-root arguments of `set_abc` in closed form:
+    `b² - xy² = |a×b|²/|a|²` and `c² - xz² - yz² = det²/|a×b|²`: positive for every non-singular cell,
+    so that `SqrtOK` only asks for square roots of positive numbers. -/
+theorem sqrt_args_closed_form (sqrt : K → K) (v : M3 K) (hdet : M3.det v ≠ 0)
+    (ha : SqrtAt sqrt (V3.normSq v.r0)) (hb : SqrtAt sqrt (V3.normSq v.r1)) (hc : SqrtAt sqrt (V3.normSq v.r2)) :
+    lyArg sqrt v = V3.normSq (V3.cross v.r0 v.r1) / V3.normSq v.r0 ∧ 0 < lyArg sqrt v ∧
+    (SqrtAt sqrt (lyArg sqrt v) →
+      lzArg sqrt v = M3.det v * M3.det v / V3.normSq (V3.cross v.r0 v.r1) ∧ 0 < lzArg sqrt v) := by
+  obtain ⟨eA, hA⟩ := ha
+  obtain ⟨eB, hB⟩ := hb
+  obtain ⟨eC, hC⟩ := hc
+  have hW := normSq_cross_pos v hdet
+  have hA' : 0 < lenA sqrt v := hA
+  have hB' : 0 < lenB sqrt v := hB
+  have hC' : 0 < lenC sqrt v := hC
+  have eA' : lenA sqrt v * lenA sqrt v = V3.normSq v.r0 := eA
+  have eB' : lenB sqrt v * lenB sqrt v = V3.normSq v.r1 := eB
+  have eC' : lenC sqrt v * lenC sqrt v = V3.normSq v.r2 := eC
+  have hnaa : 0 < V3.normSq v.r0 := by rw [← eA']; exact mul_pos hA' hA'
+  have exy : tiltXY sqrt v = V3.dot v.r0 v.r1 / lenA sqrt v := by
+    simp only [tiltXY, cosGamma]; field_simp
+  have exz : tiltXZ sqrt v = V3.dot v.r0 v.r2 / lenA sqrt v := by
+    simp only [tiltXZ, cosBeta]; field_simp
+  have exy2 : tiltXY sqrt v * tiltXY sqrt v = V3.dot v.r0 v.r1 * V3.dot v.r0 v.r1 / V3.normSq v.r0 := by
+    rw [exy, ← eA']; field_simp
+  have exz2 : tiltXZ sqrt v * tiltXZ sqrt v = V3.dot v.r0 v.r2 * V3.dot v.r0 v.r2 / V3.normSq v.r0 := by
+    rw [exz, ← eA']; field_simp
+  have exyz : tiltXY sqrt v * tiltXZ sqrt v = V3.dot v.r0 v.r1 * V3.dot v.r0 v.r2 / V3.normSq v.r0 := by
+    rw [exy, exz, ← eA']; field_simp
+  have ely : lyArg sqrt v = V3.normSq (V3.cross v.r0 v.r1) / V3.normSq v.r0 := by
+    have : lyArg sqrt v = lenB sqrt v * lenB sqrt v - tiltXY sqrt v * tiltXY sqrt v := rfl
+    rw [this, eB', exy2]
+    exact ly_identity v.r0 v.r1 (ne_of_gt hnaa)
+  have hly : 0 < lyArg sqrt v := by rw [ely]; exact div_pos hW hnaa
+  refine ⟨ely, hly, fun hs => ?_⟩
+  obtain ⟨eLY, hLY⟩ := hs
+  have hLY' : 0 < lenLy sqrt v := hLY
+  have eLY' : lenLy sqrt v * lenLy sqrt v = lyArg sqrt v := eLY
+  have eyz2 : tiltYZ sqrt v * tiltYZ sqrt v
+      = (V3.dot v.r1 v.r2 - tiltXY sqrt v * tiltXZ sqrt v) * (V3.dot v.r1 v.r2 - tiltXY sqrt v * tiltXZ sqrt v)
+        / lyArg sqrt v := by
+    have : tiltYZ sqrt v = (V3.dot v.r1 v.r2 - tiltXY sqrt v * tiltXZ sqrt v) / lenLy sqrt v := by
+      simp only [tiltYZ, cosAlpha]; field_simp
+    rw [this, ← eLY']; field_simp
+  have elz : lzArg sqrt v = M3.det v * M3.det v / V3.normSq (V3.cross v.r0 v.r1) := by
+    have : lzArg sqrt v = lenC sqrt v * lenC sqrt v - tiltXZ sqrt v * tiltXZ sqrt v
+        - tiltYZ sqrt v * tiltYZ sqrt v := rfl
+    rw [this, eC', exz2, eyz2, exyz, ely]
+    exact lz_identity v (ne_of_gt hnaa) (ne_of_gt hW)
+  refine ⟨elz, ?_⟩
+  rw [elz]
+  exact div_pos (mul_self_pos.mpr hdet) hW
+
+/-- the driver's floor (`Rat.floor`) is a floor in the sense the theorems assume. -/
+theorem isFloor_ratFloor : IsFloor (K := ℚ) Rat.floor :=
+  fun s => ⟨Int.floor_le s, Int.lt_floor_add_one s⟩
+
+/-- over ℝ with the real square root the hypothesis `SqrtOK` holds for every non-singular cell. -/
+theorem sqrtOK_real (v : M3 ℝ) (hdet : M3.det v ≠ 0) : SqrtOK Real.sqrt v := by
+  have hs : ∀ x : ℝ, 0 < x → SqrtAt Real.sqrt x :=
+    fun x hx => ⟨Real.mul_self_sqrt hx.le, Real.sqrt_pos.mpr hx⟩
+  obtain ⟨h0, h1, h2⟩ := rows_normSq_pos v hdet
+  obtain ⟨_, hly, hlz⟩ := sqrt_args_closed_form Real.sqrt v hdet (hs _ h0) (hs _ h1) (hs _ h2)
+  exact ⟨hs _ h0, hs _ h1, hs _ h2, hs _ hly, hs _ (hlz (hs _ hly)).2⟩
+
+/-! ## non-vacuity: concrete states meeting the hypotheses -/
+
+/-- a rational square root good enough for the 3-4-5 example cell. -/
+def sqrtQ (x : ℚ) : ℚ := if x = 9 then 3 else if x = 16 then 4 else if x = 25 then 5 else 0
+
+/-- left-handed cell (det = -60), non-zero origin. -/
+def exBox : Box ℚ := ⟨⟨⟨0, 3, 0⟩, ⟨4, 0, 0⟩, ⟨0, 0, 5⟩⟩, ⟨1, 1, 1⟩⟩
+def exPos : List (V3 ℚ) := [⟨1, 1, 1⟩, ⟨-7, 9/2, 23/2⟩, ⟨3, 2, 7/2⟩]
+
+example : M3.det exBox.vects = -60 := by decide +kernel
+example : SqrtOK sqrtQ (flip exBox).vects := by
+  refine ⟨⟨?_, ?_⟩, ⟨?_, ?_⟩, ⟨?_, ?_⟩, ⟨?_, ?_⟩, ⟨?_, ?_⟩⟩ <;> decide +kernel
+example : (normalize? Rat.floor (1/1000) sqrtQ exBox ⟨true, true, true⟩ exPos).isSome = true := by decide +kernel
+example : (wrap Rat.floor (1/1000) exBox ⟨true, false, true⟩ exPos).flags = [⟨0, 0, 0⟩, ⟨1, 0, 2⟩, ⟨0, 0, 0⟩] := by
+  decide +kernel
+
+/-- at ℝ (real floor, real square root) every non-singular cell meets all hypotheses: normalize is
+    defined and yields a right-handed LAMMPS cell. -/
+example (b : Box ℝ) (hdet : M3.det b.vects ≠ 0) (pos : List (V3 ℝ)) :
+    ∃ r, normalize? (fun s => ⌊s⌋) (1 / 1000) Real.sqrt b ⟨true, true, true⟩ pos = some r ∧
+      Box.isLammpsNorm r.box = true ∧ 0 < M3.det r.box.vects ∧ r.box.origin = ⟨0, 0, 0⟩ ∧
+      r.pos.length = pos.length :=
+  normalize_lammps_normal _ _ _ b (sqrtOK_real _ (ne_of_gt (flip_det_pos b hdet))) pos
+
+example : IsFloor (K := ℝ) (fun s => ⌊s⌋) := fun s => ⟨Int.floor_le s, Int.lt_floor_add_one s⟩
+
+example (b : Box ℚ) (hdet : M3.det b.vects ≠ 0) (pbc : V3 Bool) (pos : List (V3 ℚ)) :
+    ∀ p' ∈ (wrap Rat.floor (1 / 1000) b pbc pos).pos,
+      insideRel ((wrap Rat.floor (1 / 1000) b pbc pos).box.cartToRel p') :=
+  wrap_inside Rat.floor isFloor_ratFloor _ (by norm_num) b hdet pbc pos
 
 end Atomman.C05
